@@ -1,1 +1,19 @@
-fn main(){}
+//! Engine "netctl": own-the-wire driver + monitors for turmoil-net
+//! connection lifecycle (C13), socket table / routing (C17), rule chains (C19).
+mod checks;
+mod engine;
+
+fn main() {
+    let args: Vec<String> = std::env::args().collect();
+    let ctx = vcore::Ctx::from_args(&args[1..]);
+    vcore::install_quiet_panic_hook();
+    match ctx.prop.as_str() {
+        "C13" => checks::c13::run(&ctx),
+        "C17" => checks::c17::run(&ctx),
+        "C19" => checks::c19::run(&ctx),
+        other => {
+            println!("INCONCLUSIVE property={other} not served by netctl");
+            std::process::exit(2);
+        }
+    }
+}
